@@ -95,3 +95,19 @@ def _m_inplace_dependant_preparer(w):
         and f.get("callback_on_invalidated_dependant") is True
         and f.get("changed") == ["recv"]
     )
+
+
+@matcher("abort-inside-copy-protection-bookkeeping")
+def _m_abort_in_bookkeeping(w):
+    """
+    C20: an exception injected at a line *inside* _modules_copyable.__new__/__enter__/__exit__ (between the reference-count
+    update and the dispatch-table write) leaves the table entry or the count behind. Only failpoints located in those three
+    functions match; a leak after an abort anywhere else, or in any run without injected faults, is still a violation.
+    """
+    f = _f(w)
+    return (
+        w["monitor"] == "dispatch_table_restored"
+        and f.get("phase") == "line_failpoint"
+        and f.get("fault_in_protection_bookkeeping") is True
+        and str(f.get("fault_at", "")).startswith("utils/mutation.py:")
+    )
